@@ -639,3 +639,15 @@ _add("C18", _BZLIFE + "Close never touches source, offsets, counters, CRCs or De
      "(bzip2_reader_close_midstream_closes_nothing; unlike flate.Reader no output is lost).")
 _add("C14", _BZLIFE + "Reset from ANY state with its six Decoder slots followed by any history gives call by call exactly the observations "
      "of a new Reader; no recycled capacity is observable (bzip2_reader_reset_as_new, bzip2_reader_recycled_storage_unobservable).")
+
+_add("C14", "ADDED: Reset INSIDE the XFLATE models (XFlate/WriterReset.v, ReaderReset.v: w_reset / r_reset written field by field as the Go "
+     "methods, NewWriter / NewReader defined through Reset as in Go, the zero-value objects explicit; histories with Reset compared "
+     "live per op with the real types: WXFRESET, plus a verif hook exposing cursor, index and reset state) with theorems for every "
+     "state and every external compressor (XFlate/ResetThms.v): xflate.Writer.Reset gives exactly the NewWriter state of its "
+     "configuration, so a history through one Writer splits at each Reset into histories of new Writers "
+     "(xflate_writer_reset_as_new, ..._histories_split_at_reset); the seeded regression 'Reset keeps the back size' is refuted "
+     "inside Coq; xflate.Reader.Reset followed by any ops gives the observations, I/O log included, of NewReader followed by the "
+     "same ops (xflate_reader_reset_as_new) - the states are NOT equal (the recycled decompressor object keeps the abandoned "
+     "chunk's offsets after a failed open: proved, and unobservable). Model limitation found here: on a DAMAGED chunk the real "
+     "Reader latches Corrupted in the Read that returns the last bytes, the Reader model one Read later; Writer-made streams never "
+     "do this; such histories are compared up to that Read and counted.")
